@@ -188,9 +188,9 @@ Proof.
   destruct (str_eqb (47 :: r) [47]) eqn:E.
   - apply str_eqb_eq in E. inversion E; subst. reflexivity.
   - unfold strip_query.
-    assert (F : find 63 (47 :: r) = None).
+    assert (F : PyStr.find 63 (47 :: r) = None).
     { apply find_absent. intros x [Hx|Hx]; [subst x; discriminate|].
-      apply (existsb_eqb_false 63 r Hq x Hx). }
+      apply (existsb_eqb_false _ _ Hq x Hx). }
     rewrite F. reflexivity.
 Qed.
 
@@ -216,6 +216,9 @@ Qed.
 (* ================================================================================== *)
 Definition pieces (f : str) (payload : pv) : list pv := PStr f :: map PBytes (leaves payload).
 
+Lemma type_is_int a ns id d b : type_is (mkPacket (PInt a) ns id d) b = (a =? b)%Z.
+Proof. reflexivity. Qed.
+
 Lemma rx_packet_default loads mloads mdumps t payload ns id :
   (t = 2 \/ t = 3)%Z ->
   wf_input t payload (Some ns) id = true ->
@@ -235,15 +238,13 @@ Proof.
   - rewrite Hc. cbn [bind encode_frames]. rewrite He. cbn [bind]. unfold pieces_of. cbn [fst snd].
     destruct (has_bytes payload) eqn:Hb; [reflexivity|]. rewrite (nobytes_leaves _ Hb). reflexivity.
   - rewrite rx_run_cons. cbn [rx_step]. unfold server_rx_step, rx_step_with. cbn [rx_decode].
-    rewrite Hdec. cbn [bind rp ptype]. unfold promoted in *.
+    rewrite Hdec. cbn [bind rp]. subst q. unfold promoted in *. rewrite !type_is_int.
+    unfold EVENT, ACK, BINARY_EVENT, BINARY_ACK.
     destruct (has_bytes payload) eqn:Hb.
     + (* binary: header stored, attachments complete it *)
-      assert (T : type_is (mkPacket (PInt (t + 3)) (ns_dec (Some ns)) id (subst payload 0)) EVENT = false /\
-                  type_is (mkPacket (PInt (t + 3)) (ns_dec (Some ns)) id (subst payload 0)) ACK = false /\
-                  (type_is (mkPacket (PInt (t + 3)) (ns_dec (Some ns)) id (subst payload 0)) BINARY_EVENT ||
-                   type_is (mkPacket (PInt (t + 3)) (ns_dec (Some ns)) id (subst payload 0)) BINARY_ACK) = true).
-      { destruct Ht as [-> | ->]; repeat split; reflexivity. }
-      destruct T as (T1 & T2 & T3). rewrite T1, T2, T3. cbn [bind app].
+      assert (T1 : (t + 3 =? 2)%Z = false) by lia. assert (T2 : (t + 3 =? 3)%Z = false) by lia.
+      assert (T3 : ((t + 3 =? 5)%Z || (t + 3 =? 6)%Z) = true) by lia.
+      rewrite T1, T2, T3. cbn [bind app].
       pose proof (bytes_leaves _ Hb) as Hne.
       set (r0 := mkR (mkPacket (PInt (t + 3)) (ns_dec (Some ns)) id (subst payload 0))
                      (N.of_nat (List.length (leaves payload))) []).
@@ -256,25 +257,392 @@ Proof.
           pose proof (recon_subst payload (wf_ph_free _ Hd) [] []) as R.
           cbn [List.length app] in R. rewrite app_nil_r in R. rewrite R. reflexivity.
         - cbn [r0 rcount List.length]. rewrite map_length. reflexivity. }
-      rewrite (rx_attachments loads mloads SerDefault _ r0 _ ); [| |exact Hadd].
-      * cbn [rp]. subst q.
-        destruct Ht as [-> | ->]; cbn [Z.eqb Z.add];
-          match goal with |- context [type_is ?p BINARY_EVENT] =>
-            let b := eval vm_compute in (type_is (mkPacket (ptype p) None None PNone) BINARY_EVENT) in
-            change (type_is p BINARY_EVENT) with b end;
-          cbv iota;
-          match goal with |- context [bind ?X _] => destruct X as [evs|e] end; reflexivity.
-      * destruct (leaves payload); [contradiction|discriminate].
+      assert (Hne2 : map PBytes (leaves payload) <> []).
+      { destruct (leaves payload); [contradiction|discriminate]. }
+      rewrite (rx_attachments loads mloads SerDefault _ r0 _ Hne2 Hadd).
+      cbn [rp]. rewrite type_is_int. unfold BINARY_EVENT.
+      assert (T4 : (t + 3 =? 5)%Z = (t =? 2)%Z) by lia. rewrite T4.
+      match goal with |- context [if (t =? 2)%Z then ?A else ?B] =>
+        destruct (if (t =? 2)%Z then A else B) as [evs|e] end; reflexivity.
     + (* not binary: delivered at once *)
       pose proof (nobytes_leaves _ Hb) as Hlv. rewrite (noleaves_subst _ Hlv), Hlv. cbn [map].
-      subst q. destruct Ht as [-> | ->].
-      * change (type_is (mkPacket (PInt 2) (ns_dec (Some ns)) id payload) EVENT) with true. cbv iota.
-        cbn [Z.eqb]. cbv iota.
-        destruct (server_dispatch_event (mkPacket (PInt 2) (ns_dec (Some ns)) id payload)) as [evs|e];
-          cbn [bind rx_run]; [rewrite app_nil_r|]; reflexivity.
-      * change (type_is (mkPacket (PInt 3) (ns_dec (Some ns)) id payload) EVENT) with false.
-        change (type_is (mkPacket (PInt 3) (ns_dec (Some ns)) id payload) ACK) with true. cbv iota.
-        cbn [Z.eqb]. cbv iota.
-        destruct (server_dispatch_ack (mkPacket (PInt 3) (ns_dec (Some ns)) id payload)) as [evs|e];
-          cbn [bind rx_run]; [rewrite app_nil_r|]; reflexivity.
+      destruct Ht as [-> | ->];
+        change (2 =? 2)%Z with true; change (3 =? 2)%Z with false; change (3 =? 3)%Z with true; cbv iota;
+        match goal with |- _ = bind ?X _ => destruct X as [evs|e] end;
+        cbn [bind rx_run]; rewrite ?app_nil_r; reflexivity.
 Qed.
+
+(* ================================================================================== *)
+(* 6. one message of the pipe, default serializer                                       *)
+(* ================================================================================== *)
+Theorem msg_through_default loads mloads mdumps dir m :
+  msg_wf m = true -> msg_small m -> msg_json_ok loads m ->
+  exists f,
+    msg_frames mdumps dir SerDefault m = Ok (pieces f (msg_payload m)) /\
+    rx_run loads mloads dir SerDefault None (pieces f (msg_payload m)) = Ok (None, [msg_call m]).
+Proof.
+  intros Hwf Hsmall Hjson. destruct (msg_wf_input m Hwf) as (Hin & Hns & _).
+  destruct m as [ev data ns id|r ns id];
+    cbn [msg_type msg_payload msg_ns msg_id msg_frames msg_call] in *; unfold msg_small, msg_json_ok in *;
+    cbn [msg_payload] in *.
+  - destruct (rx_packet_default loads mloads mdumps 2 _ ns id (or_introl eq_refl) Hin Hsmall Hjson)
+      as (f & Hf & Hrx).
+    exists f. split.
+    + rewrite sender_frames_dir. exact Hf.
+    + rewrite rx_run_dir, Hrx. change (2 =? 2)%Z with true. cbv iota.
+      unfold server_dispatch_event. cbn [pdata split_event bind fst snd pns pid].
+      rewrite (ns_received _ Hns). reflexivity.
+  - destruct (rx_packet_default loads mloads mdumps 3 _ ns (Some id) (or_intror eq_refl) Hin Hsmall Hjson)
+      as (f & Hf & Hrx).
+    exists f. split.
+    + rewrite ack_frames_dir. exact Hf.
+    + rewrite rx_run_dir, Hrx. change (3 =? 2)%Z with false. cbv iota.
+      unfold server_dispatch_ack. cbn [pdata star_args bind pns pid].
+      rewrite (ns_received _ Hns). reflexivity.
+Qed.
+
+(* ================================================================================== *)
+(* 7. one message of the pipe, msgpack serializer                                       *)
+(* ================================================================================== *)
+Lemma of_dict_to_dict t ns id d :
+  of_dict (to_dict (mkPacket (PInt t) (Some ns) id d)) = Ok (mkPacket (PInt t) (Some ns) id d).
+Proof. destruct id; reflexivity. Qed.
+
+Lemma ns_or_default_nonempty ns : ns <> [] -> ns_or_default (Some ns) = ns.
+Proof. destruct ns; [contradiction|reflexivity]. Qed.
+
+Theorem msg_through_msgpack loads mloads mdumps dir m :
+  msg_ns m <> [] -> msg_msgpack_ok mdumps mloads m ->
+  exists b,
+    msg_frames mdumps dir SerMsgpack m = Ok [PBytes b] /\
+    rx_run loads mloads dir SerMsgpack None [PBytes b] = Ok (None, [msg_call m]).
+Proof.
+  intros Hns (b & Hd & Hne & Hl). exists b.
+  assert (Hrx : rx_decode loads mloads SerMsgpack (PBytes b) = Ok (mkR (msg_packet m) 0 [])).
+  { cbn [rx_decode]. unfold mp_decode. destruct b as [|c b]; [contradiction|]. cbn [truthy negb].
+    rewrite Hl. cbn [bind]. unfold msg_packet. rewrite of_dict_to_dict. reflexivity. }
+  destruct m as [ev data ns id|r ns id]; cbn [msg_ns msg_frames msg_call] in *.
+  - split.
+    + rewrite sender_frames_dir. unfold server_emit_frames, ctor. cbn [ser_binary andb bind encode_frames].
+      unfold mp_encode. unfold msg_msgpack_ok, msg_packet in *. cbn [msg_type msg_ns msg_id msg_payload] in Hd.
+      rewrite Hd. reflexivity.
+    + rewrite rx_run_dir, rx_run_cons. cbn [rx_step]. unfold server_rx_step, rx_step_with.
+      rewrite Hrx. cbn [bind rp]. unfold msg_packet. cbn [msg_type msg_ns msg_id msg_payload].
+      rewrite !type_is_int. change (EVENT =? EVENT)%Z with true. cbv iota.
+      unfold server_dispatch_event. cbn [pdata split_event bind fst snd pns pid rx_run app].
+      destruct ns; [contradiction|reflexivity].
+  - split.
+    + rewrite ack_frames_dir. unfold server_ack_frames, ctor. cbn [ser_binary andb bind encode_frames].
+      unfold mp_encode. unfold msg_msgpack_ok, msg_packet in *. cbn [msg_type msg_ns msg_id msg_payload] in Hd.
+      rewrite Hd. reflexivity.
+    + rewrite rx_run_dir, rx_run_cons. cbn [rx_step]. unfold server_rx_step, rx_step_with.
+      rewrite Hrx. cbn [bind rp]. unfold msg_packet. cbn [msg_type msg_ns msg_id msg_payload].
+      rewrite !type_is_int. change (ACK =? EVENT)%Z with false. change (ACK =? ACK)%Z with true. cbv iota.
+      unfold server_dispatch_ack. cbn [pdata star_args bind pns pid rx_run app].
+      destruct ns; [contradiction|reflexivity].
+Qed.
+
+(* the universal form of the msgpack hypothesis reaches every message of the library's domain *)
+Lemma mp_list_forallb l : msgpackable (PList l) = forallb msgpackable l.
+Proof.
+  induction l as [|x l IH]; [reflexivity|].
+  change (msgpackable (PList (x :: l))) with (msgpackable x && msgpackable (PList l)).
+  rewrite IH. reflexivity.
+Qed.
+Lemma mp_payload_pack data : mp_payload data = true -> forallb msgpackable (pack data) = true.
+Proof.
+  destruct data; cbn [mp_payload pack forallb]; intro H; try reflexivity;
+    try (rewrite H; reflexivity); try exact H; try discriminate.
+Qed.
+Definition mp_dict_go : list (pv * pv) -> bool :=
+  fix go (kv : list (pv * pv)) : bool :=
+    match kv with
+    | [] => true
+    | (k, x) :: r => match k with PStr s => forallb scalar_cp s | _ => false end && msgpackable x && go r
+    end.
+Lemma mp_PDict kv : msgpackable (PDict kv) = mp_keys_distinct (map fst kv) && mp_dict_go kv.
+Proof. reflexivity. Qed.
+Lemma mp_dict3 a b c :
+  msgpackable (PDict [(k_type, a); (MsgPack.k_data, b); (k_nsp, c)]) = msgpackable a && msgpackable b && msgpackable c.
+Proof.
+  rewrite mp_PDict. cbn [map fst mp_dict_go].
+  change (mp_keys_distinct [k_type; MsgPack.k_data; k_nsp]) with true.
+  unfold k_type, MsgPack.k_data, k_nsp.
+  change (forallb scalar_cp (s2l "type")) with true. change (forallb scalar_cp (s2l "data")) with true.
+  change (forallb scalar_cp (s2l "nsp")) with true.
+  destruct (msgpackable a), (msgpackable b), (msgpackable c); reflexivity.
+Qed.
+Lemma mp_dict4 a b c d :
+  msgpackable (PDict [(k_type, a); (MsgPack.k_data, b); (k_nsp, c); (k_id, d)]) =
+  msgpackable a && msgpackable b && msgpackable c && msgpackable d.
+Proof.
+  rewrite mp_PDict. cbn [map fst mp_dict_go].
+  change (mp_keys_distinct [k_type; MsgPack.k_data; k_nsp; k_id]) with true.
+  unfold k_type, MsgPack.k_data, k_nsp, k_id.
+  change (forallb scalar_cp (s2l "type")) with true. change (forallb scalar_cp (s2l "data")) with true.
+  change (forallb scalar_cp (s2l "nsp")) with true. change (forallb scalar_cp (s2l "id")) with true.
+  destruct (msgpackable a), (msgpackable b), (msgpackable c), (msgpackable d); reflexivity.
+Qed.
+
+Lemma msg_mp_wf_dict m : msg_mp_wf m = true -> msgpackable (to_dict (msg_packet m)) = true.
+Proof.
+  destruct m as [ev data ns id|r ns id]; cbn [msg_mp_wf]; intro H.
+  - apply andb_true_iff in H as [H Hid]. apply andb_true_iff in H as [H Hns].
+    apply andb_true_iff in H as [Hev Hd]. pose proof (mp_payload_pack _ Hd) as Hp.
+    assert (Hl : msgpackable (PList (PStr ev :: pack data)) = true).
+    { rewrite mp_list_forallb. cbn [forallb msgpackable]. rewrite Hev, Hp. reflexivity. }
+    unfold msg_packet, to_dict. cbn [msg_type msg_ns msg_id msg_payload ptype pns pid pdata].
+    destruct id as [i|]; cbn [app]; [rewrite mp_dict4|rewrite mp_dict3]; rewrite Hl;
+      cbn [msgpackable]; rewrite ?Hns, ?Hid; reflexivity.
+  - apply andb_true_iff in H as [H Hid]. apply andb_true_iff in H as [Hd Hns].
+    pose proof (mp_payload_pack _ Hd) as Hp.
+    assert (Hl : msgpackable (PList (pack r)) = true) by (rewrite mp_list_forallb; exact Hp).
+    unfold msg_packet, to_dict. cbn [msg_type msg_ns msg_id msg_payload ptype pns pid pdata app].
+    rewrite mp_dict4, Hl. cbn [msgpackable]. rewrite ?Hns, ?Hid. reflexivity.
+Qed.
+
+(* ================================================================================== *)
+(* 8. sequences of messages from one sender                                             *)
+(* ================================================================================== *)
+Definition delivered loads mloads mdumps dir ser (m : msg) : Prop :=
+  exists fr, msg_frames mdumps dir ser m = Ok fr /\
+             rx_run loads mloads dir ser None fr = Ok (None, [msg_call m]).
+
+(* the frames of each message are consumed by the loop as a unit (a binary packet's attachments
+   directly follow its text frame and nothing else of the same sender comes in between), the
+   loop is back in its initial state after each message, so the handler calls come out in the
+   order the messages were sent *)
+Theorem order_generic loads mloads mdumps dir ser ms :
+  Forall (delivered loads mloads mdumps dir ser) ms ->
+  exists frs, all_frames mdumps dir ser ms = Ok frs /\
+              rx_run loads mloads dir ser None frs = Ok (None, map msg_call ms).
+Proof.
+  induction 1 as [|m ms (fr & Hf & Hrx) _ (frs & Hfs & Hrxs)].
+  - exists []. split; reflexivity.
+  - exists (fr ++ frs). split.
+    + cbn [all_frames]. rewrite Hf, Hfs. reflexivity.
+    + rewrite rx_run_app, Hrx. cbn [bind]. rewrite Hrxs. reflexivity.
+Qed.
+
+Theorem order_default loads mloads mdumps dir ms :
+  Forall (fun m => msg_wf m = true /\ msg_small m /\ msg_json_ok loads m) ms ->
+  exists frs, all_frames mdumps dir SerDefault ms = Ok frs /\
+              rx_run loads mloads dir SerDefault None frs = Ok (None, map msg_call ms) /\
+              receiver_calls loads mloads dir SerDefault frs = Ok (map msg_call ms).
+Proof.
+  intro H. assert (HD : Forall (delivered loads mloads mdumps dir SerDefault) ms).
+  { eapply Forall_impl; [|exact H]. intros m (Hw & Hs & Hj).
+    destruct (msg_through_default loads mloads mdumps dir m Hw Hs Hj) as (f & H1 & H2).
+    eexists; split; eassumption. }
+  destruct (order_generic loads mloads mdumps dir SerDefault ms HD) as (frs & Hf & Hrx).
+  - exists frs. repeat split; try assumption. unfold receiver_calls. rewrite Hrx. reflexivity.
+Qed.
+
+Theorem order_msgpack loads mloads mdumps dir ms :
+  Forall (fun m => msg_ns m <> [] /\ msg_msgpack_ok mdumps mloads m) ms ->
+  exists frs, all_frames mdumps dir SerMsgpack ms = Ok frs /\
+              rx_run loads mloads dir SerMsgpack None frs = Ok (None, map msg_call ms) /\
+              receiver_calls loads mloads dir SerMsgpack frs = Ok (map msg_call ms).
+Proof.
+  intro H. assert (HD : Forall (delivered loads mloads mdumps dir SerMsgpack) ms).
+  { eapply Forall_impl; [|exact H]. intros m (Hn & Hm).
+    destruct (msg_through_msgpack loads mloads mdumps dir m Hn Hm) as (b & H1 & H2).
+    eexists; split; eassumption. }
+  destruct (order_generic loads mloads mdumps dir SerMsgpack ms HD) as (frs & Hf & Hrx).
+  - exists frs. repeat split; try assumption. unfold receiver_calls. rewrite Hrx. reflexivity.
+Qed.
+
+(* ================================================================================== *)
+(* 9. the statements of C02                                                             *)
+(* ================================================================================== *)
+Theorem same_code :
+  (forall d, client_pack d = pack d) /\
+  (forall d, client_split_event d = split_event d) /\
+  (forall d, client_star_args d = star_args d) /\
+  (forall loads mloads ser st f, client_rx_step loads mloads ser st f = server_rx_step loads mloads ser st f) /\
+  (forall mdumps ser ev data ns id,
+     client_emit_frames mdumps ser ev data ns id = server_emit_frames mdumps ser ev data ns id) /\
+  (forall mdumps ser r ns id, client_ack_frames mdumps ser r ns id = server_ack_frames mdumps ser r ns id).
+Proof.
+  split; [exact client_pack_eq|]. split; [exact client_split_event_eq|].
+  split; [exact client_star_args_eq|]. split; [exact client_rx_step_eq|]. split.
+  - intros. exact (sender_frames_dir mdumps C2S ser ev data ns id).
+  - intros. exact (ack_frames_dir mdumps C2S ser r ns id).
+Qed.
+
+Theorem args_default loads mloads mdumps dir event data ns id :
+  wf_payload data = true -> wf_nsname ns = true -> wf_id id = true ->
+  msg_small (MEmit event data ns id) ->
+  msg_json_ok loads (MEmit event data ns id) ->
+  exists f,
+    let frames := PStr f :: map PBytes (leaves (PList (PStr event :: pack data))) in
+    sender_frames mdumps dir SerDefault event data ns id = Ok frames /\
+    receiver_calls loads mloads dir SerDefault frames = Ok [EvCall ns (PStr event) (pack data) id].
+Proof.
+  intros Hd Hns Hid Hs Hj.
+  destruct (msg_through_default loads mloads mdumps dir (MEmit event data ns id)) as (f & H1 & H2);
+    [cbn [msg_wf]; rewrite Hd, Hns, Hid; reflexivity|exact Hs|exact Hj|].
+  exists f. cbv zeta. split; [exact H1|]. unfold receiver_calls.
+  unfold pieces in H2. cbn [msg_payload] in H2. rewrite H2. reflexivity.
+Qed.
+
+Theorem args_msgpack loads mloads mdumps dir event data ns id :
+  ns <> [] ->
+  msg_msgpack_ok mdumps mloads (MEmit event data ns id) ->
+  exists b,
+    sender_frames mdumps dir SerMsgpack event data ns id = Ok [PBytes b] /\
+    receiver_calls loads mloads dir SerMsgpack [PBytes b] = Ok [EvCall ns (PStr event) (pack data) id].
+Proof.
+  intros Hns Hm.
+  destruct (msg_through_msgpack loads mloads mdumps dir (MEmit event data ns id) Hns Hm) as (b & H1 & H2).
+  exists b. split; [exact H1|]. unfold receiver_calls. rewrite H2. reflexivity.
+Qed.
+
+Theorem ack_default loads mloads mdumps dir r ns id :
+  wf_payload r = true -> wf_nsname ns = true -> wf_id (Some id) = true ->
+  msg_small (MAck r ns id) ->
+  msg_json_ok loads (MAck r ns id) ->
+  exists f,
+    let frames := PStr f :: map PBytes (leaves (PList (pack r))) in
+    ack_frames mdumps dir SerDefault r ns id = Ok frames /\
+    receiver_calls loads mloads dir SerDefault frames = Ok [AckCall ns (Some id) (pack r)] /\
+    callback_args loads mloads dir SerDefault frames = Ok (pack r).
+Proof.
+  intros Hd Hns Hid Hs Hj.
+  destruct (msg_through_default loads mloads mdumps dir (MAck r ns id)) as (f & H1 & H2);
+    [cbn [msg_wf]; rewrite Hd, Hns, Hid; reflexivity|exact Hs|exact Hj|].
+  exists f. cbv zeta. split; [exact H1|]. unfold callback_args, receiver_calls.
+  unfold pieces in H2. cbn [msg_payload] in H2. rewrite H2. split; reflexivity.
+Qed.
+
+Theorem ack_msgpack loads mloads mdumps dir r ns id :
+  ns <> [] ->
+  msg_msgpack_ok mdumps mloads (MAck r ns id) ->
+  exists b,
+    ack_frames mdumps dir SerMsgpack r ns id = Ok [PBytes b] /\
+    receiver_calls loads mloads dir SerMsgpack [PBytes b] = Ok [AckCall ns (Some id) (pack r)] /\
+    callback_args loads mloads dir SerMsgpack [PBytes b] = Ok (pack r).
+Proof.
+  intros Hns Hm.
+  destruct (msg_through_msgpack loads mloads mdumps dir (MAck r ns id) Hns Hm) as (b & H1 & H2).
+  exists b. split; [exact H1|]. unfold callback_args, receiver_calls. rewrite H2. split; reflexivity.
+Qed.
+
+(* call(): None / the single value / the tuple *)
+Theorem call_result_shape r :
+  call_result (pack r) = match r with
+                         | PTuple [] => PNone
+                         | PTuple [x] => x
+                         | _ => r
+                         end.
+Proof. destruct r as [| | | | | |l|[|x [|y l]]|kv|n]; reflexivity. Qed.
+
+(* the universal forms of the two library hypotheses imply the pointwise ones *)
+Theorem json_universal_pointwise (loads : str -> Res pv) m :
+  (forall v s, jsonable v = true -> json_dumps v = Ok s -> loads s = Ok v) ->
+  msg_wf m = true -> floats_ok (msg_payload m) = true -> msg_small m -> msg_json_ok loads m.
+Proof.
+  intros Hu Hwf Hfl Hs s Hd. apply Hu; [|exact Hd].
+  destruct (msg_wf_input m Hwf) as (_ & _ & Hw).
+  apply wf_jsonable_subst; [exact Hw|exact Hfl|]. unfold msg_small in Hs. lia.
+Qed.
+
+Theorem msgpack_universal_pointwise mdumps mloads m :
+  (forall v, msgpackable v = true -> msgpack_rt mdumps mloads v) ->
+  msg_mp_wf m = true -> msg_msgpack_ok mdumps mloads m.
+Proof. intros Hu Hwf. apply Hu. apply msg_mp_wf_dict. exact Hwf. Qed.
+
+(* ================================================================================== *)
+(* 10. non-vacuity: concrete messages satisfying every hypothesis, evaluated            *)
+(* ================================================================================== *)
+(* emit("ev", ({"k": [b"\x01\x02", -3], "f": 1.5}, b"\xff", "x"), namespace="/chat", callback=...)
+   with ack id 7: a tuple of three arguments, two byte strings (one nested two levels down) *)
+Definition ex_ev : str := s2l "ev".
+Definition ex_ns : str := s2l "/chat".
+Definition ex_arg1 : pv :=
+  PDict [(PStr (s2l "k"), PList [PBytes [1; 2]; PInt (-3)]); (PStr (s2l "f"), PFloat (s2l "1.5"))].
+Definition ex_data : pv := PTuple [ex_arg1; PBytes [255]; PStr (s2l "x")].
+Definition ex_m1 : msg := MEmit ex_ev ex_data ex_ns (Some 7%Z).
+Definition ex_text1 : str :=
+  s2l "[""ev"",{""k"":[{""_placeholder"":true,""num"":0},-3],""f"":1.5},{""_placeholder"":true,""num"":1},""x""]".
+Definition ex_frames1 : list pv :=
+  [PStr (s2l "52-/chat,7" ++ ex_text1); PBytes [1; 2]; PBytes [255]].
+(* the handler returns (b"\x09", {"ok": True}): a binary ACK with two arguments *)
+Definition ex_ret : pv := PTuple [PBytes [9]; PDict [(PStr (s2l "ok"), PBool true)]].
+Definition ex_m2 : msg := MAck ex_ret ex_ns 7%Z.
+Definition ex_text2 : str := s2l "[{""_placeholder"":true,""num"":0},{""ok"":true}]".
+Definition ex_frames2 : list pv := [PStr (s2l "61-/chat,7" ++ ex_text2); PBytes [9]].
+(* a plain emit on the default namespace without ack: one argument, no bytes *)
+Definition ex_m3 : msg := MEmit (s2l "msg") (PList [PInt 1; PNone]) (s2l "/") None.
+Definition ex_text3 : str := s2l "[""msg"",[1,null]]".
+Definition ex_frames3 : list pv := [PStr (s2l "2" ++ ex_text3)].
+(* json.loads as a three-entry table *)
+Definition ex_loads : str -> Res pv :=
+  jstable_loads [(ex_text1, Ok (subst (msg_payload ex_m1) 0));
+                 (ex_text2, Ok (subst (msg_payload ex_m2) 0));
+                 (ex_text3, Ok (msg_payload ex_m3))].
+(* msgpack as a three-entry table of (dictionary, blob) *)
+Definition ex_mt : mtable :=
+  [(to_dict (msg_packet ex_m1), [132; 1]); (to_dict (msg_packet ex_m2), [132; 2]);
+   (to_dict (msg_packet ex_m3), [131; 3])].
+Definition ex_mdumps := table_mdumps ex_mt.
+Definition ex_mloads := table_mloads ex_mt.
+
+Example ex_hyp_default :
+  Forall (fun m => msg_wf m = true /\ msg_small m /\ msg_json_ok ex_loads m) [ex_m1; ex_m2; ex_m3].
+Proof.
+  repeat constructor; try (vm_compute; reflexivity);
+    intros s H; vm_compute in H; inversion H; subst; vm_compute; reflexivity.
+Qed.
+Example ex_hyp_msgpack :
+  Forall (fun m => msg_ns m <> [] /\ msg_msgpack_ok ex_mdumps ex_mloads m) [ex_m1; ex_m2; ex_m3].
+Proof.
+  repeat constructor; try discriminate;
+    (eexists; split; [vm_compute; reflexivity|split; [discriminate|vm_compute; reflexivity]]).
+Qed.
+
+(* C02_args: both directions, both serializers *)
+Example ex_args :
+  forall dir,
+  sender_frames ex_mdumps dir SerDefault ex_ev ex_data ex_ns (Some 7%Z) = Ok ex_frames1 /\
+  receiver_calls ex_loads ex_mloads dir SerDefault ex_frames1 =
+    Ok [EvCall ex_ns (PStr ex_ev) [ex_arg1; PBytes [255]; PStr (s2l "x")] (Some 7%Z)] /\
+  sender_frames ex_mdumps dir SerMsgpack ex_ev ex_data ex_ns (Some 7%Z) = Ok [PBytes [132; 1]] /\
+  receiver_calls ex_loads ex_mloads dir SerMsgpack [PBytes [132; 1]] =
+    Ok [EvCall ex_ns (PStr ex_ev) [ex_arg1; PBytes [255]; PStr (s2l "x")] (Some 7%Z)].
+Proof. intros [|]; repeat split; vm_compute; reflexivity. Qed.
+
+(* C02_ack and C02_call_result *)
+Example ex_ack :
+  forall dir,
+  ack_frames ex_mdumps dir SerDefault ex_ret ex_ns 7 = Ok ex_frames2 /\
+  callback_args ex_loads ex_mloads dir SerDefault ex_frames2 = Ok [PBytes [9]; PDict [(PStr (s2l "ok"), PBool true)]] /\
+  ack_frames ex_mdumps dir SerMsgpack ex_ret ex_ns 7 = Ok [PBytes [132; 2]] /\
+  callback_args ex_loads ex_mloads dir SerMsgpack [PBytes [132; 2]] = Ok (pack ex_ret) /\
+  call_result (pack ex_ret) = ex_ret /\
+  call_result (pack PNone) = PNone /\ call_result (pack (PTuple [])) = PNone /\
+  call_result (pack (PTuple [PInt 5])) = PInt 5 /\ call_result (pack (PList [PInt 5])) = PList [PInt 5].
+Proof. intros [|]; repeat split; vm_compute; reflexivity. Qed.
+
+(* C02_order: binary emit, binary ack, plain emit, back to back *)
+Example ex_order :
+  forall dir,
+  all_frames ex_mdumps dir SerDefault [ex_m1; ex_m2; ex_m3] = Ok (ex_frames1 ++ ex_frames2 ++ ex_frames3) /\
+  receiver_calls ex_loads ex_mloads dir SerDefault (ex_frames1 ++ ex_frames2 ++ ex_frames3) =
+    Ok [msg_call ex_m1; msg_call ex_m2; msg_call ex_m3] /\
+  all_frames ex_mdumps dir SerMsgpack [ex_m1; ex_m2; ex_m3] = Ok [PBytes [132; 1]; PBytes [132; 2]; PBytes [131; 3]] /\
+  receiver_calls ex_loads ex_mloads dir SerMsgpack [PBytes [132; 1]; PBytes [132; 2]; PBytes [131; 3]] =
+    Ok [msg_call ex_m1; msg_call ex_m2; msg_call ex_m3].
+Proof. intros [|]; repeat split; vm_compute; reflexivity. Qed.
+
+(* the reassembly loop is sensitive to what the ordering theorem excludes: another message of
+   the same connection between a text frame and its attachment is taken for the attachment *)
+Example ex_interleaved_breaks :
+  receiver_calls ex_loads ex_mloads C2S SerDefault
+    [PStr (s2l "52-/chat,7" ++ ex_text1); PStr (s2l "2" ++ ex_text3); PBytes [1; 2]; PBytes [255]]
+  <> Ok [msg_call ex_m1; msg_call ex_m3].
+Proof. vm_compute. discriminate. Qed.
+
+(* the theorems applied to the examples *)
+Example ex_order_thm dir := order_default ex_loads ex_mloads ex_mdumps dir _ ex_hyp_default.
+Example ex_order_msgpack_thm dir := order_msgpack ex_loads ex_mloads ex_mdumps dir _ ex_hyp_msgpack.
